@@ -463,6 +463,16 @@ func inAppendFloat(ex *Exec, fn *ssa.Function, args []Value) (Value, bool) {
 	return ex.appendVals(args[0].(SliceV), add, types.Typ[types.Uint8]), true
 }
 
+func inMakeNoZero(ex *Exec, fn *ssa.Function, args []Value) (Value, bool) {
+	n := int(ex.concretize(args[0].(*Term), "MakeNoZero"))
+	if n > ex.h.cfg.MaxAlloc {
+		ex.inconclusive("MakeNoZero exceeds allocation cap")
+	}
+	return SliceV{arr: ex.newArrayCell(types.Typ[types.Uint8], n), len: n, cap: n}, true
+}
+
+func inIdentity(ex *Exec, fn *ssa.Function, args []Value) (Value, bool) { return args[0], true }
+
 func inNoop(ex *Exec, fn *ssa.Function, args []Value) (Value, bool) {
 	res := fn.Signature.Results()
 	if res.Len() == 0 {
@@ -741,6 +751,9 @@ var intrinsicTable = map[string]intrinsicFn{
 	"sync/atomic.CompareAndSwapUint64":   inAtomicCAS,
 	"fmt.Sprintf":                        inSprintf,
 	"fmt.Errorf":                         inSprintf,
+	"internal/abi.NoEscape":              inIdentity,
+	"internal/bytealg.MakeNoZero":        inMakeNoZero,
+	"(*strings.Builder).copyCheck":       inNoop,
 	"runtime.Gosched":                    inNoop,
 	"runtime.KeepAlive":                  inNoop,
 	"internal/race.Enabled":              inNoop,
